@@ -212,7 +212,9 @@ func (p *fakePeer) reader(conn net.Conn, done chan struct{}) {
 	}
 }
 
-func key(n bgp.PathNLRI) string { return fmt.Sprintf("%s#%d", n.NLRI.String(), n.ID) }
+func key(n bgp.PathNLRI) string {
+	return fmt.Sprintf("%s#%d", strings.ReplaceAll(n.NLRI.String(), " ", "_"), n.ID)
+}
 
 func (p *fakePeer) applyUpdate(u *bgp.BGPUpdate) {
 	if len(u.WithdrawnRoutes) == 0 && len(u.NLRI) == 0 && len(u.PathAttributes) == 0 {
@@ -502,6 +504,9 @@ func (w *world) neighbor(n sx.Node) *oc.Neighbor {
 	if ok, _ := hasOpt(n, 3, "rtc"); ok {
 		nc.AfiSafis = append(nc.AfiSafis, oc.AfiSafi{Config: oc.AfiSafiConfig{AfiSafiName: oc.AFI_SAFI_TYPE_RTC, Enabled: true}})
 	}
+	if ok, _ := hasOpt(n, 3, "evpn"); ok {
+		nc.AfiSafis = append(nc.AfiSafis, oc.AfiSafi{Config: oc.AfiSafiConfig{AfiSafiName: oc.AFI_SAFI_TYPE_L2VPN_EVPN, Enabled: true}})
+	}
 	if ok, v := hasOpt(n, 3, "vrf"); ok {
 		nc.Config.Vrf = v
 	}
@@ -686,6 +691,9 @@ func (w *world) mkOpen(p *fakePeer, n sx.Node) (*bgp.BGPMessage, uint16) {
 	if ok, _ := hasOpt(n, 2, "rtc"); ok {
 		caps = append(caps, bgp.NewCapMultiProtocol(bgp.RF_RTC_UC))
 	}
+	if ok, _ := hasOpt(n, 2, "evpn"); ok {
+		caps = append(caps, bgp.NewCapMultiProtocol(bgp.RF_EVPN))
+	}
 	popt := &bgp.MarshallingOption{AddPath: map[bgp.Family]bgp.BGPAddPathMode{}}
 	p.old = false
 	if ok, _ := hasOpt(n, 2, "old"); ok { // a speaker without the 4-octet AS capability
@@ -737,7 +745,11 @@ func (w *world) mkOpen(p *fakePeer, n sx.Node) (*bgp.BGPMessage, uint16) {
 	if ok, v := hasOpt(n, 2, "llgr"); ok {
 		var k int
 		fmt.Sscan(v, &k)
-		caps = append(caps, bgp.NewCapLongLivedGracefulRestart([]*bgp.CapLongLivedGracefulRestartTuple{bgp.NewCapLongLivedGracefulRestartTuple(bgp.RF_IPv4_UC, true, uint32(k))}))
+		lfam := bgp.RF_IPv4_UC
+		if _, f := hasOpt(n, 2, "llgrfam"); f == "6" { // the capability lists IPv6 unicast only
+			lfam = bgp.RF_IPv6_UC
+		}
+		caps = append(caps, bgp.NewCapLongLivedGracefulRestart([]*bgp.CapLongLivedGracefulRestartTuple{bgp.NewCapLongLivedGracefulRestartTuple(lfam, true, uint32(k))}))
 	}
 	p.sendOpt = sendOpt
 	as2 := uint16(p.as)
@@ -1421,6 +1433,39 @@ func (w *world) step(n sx.Node) {
 						attrs[1] = bgp.NewPathAttributeAsPath(nil)
 						attrs = append(attrs, bgp.NewPathAttributeLocalPref(100))
 					}
+					if len(ecs) > 0 {
+						attrs = append(attrs, bgp.NewPathAttributeExtendedCommunities(ecs))
+					}
+					m = bgp.NewBGPUpdateMessage(nil, attrs, nil)
+				}
+				p.send(m, p.sendOpt)
+			}
+		}
+	case "evpn":
+		// (evpn p (a rd prefix (rt...)) | (w rd prefix)): an EVPN IP-prefix (type 5) route
+		if p := w.peers[n.At(1).Atom]; p != nil && p.conn != nil {
+			for _, r := range n.List[2:] {
+				rd, _ := bgp.ParseRouteDistinguisher(r.At(1).Atom)
+				pf := netip.MustParsePrefix(r.At(2).Atom)
+				nl, err := bgp.NewEVPNIPPrefixRoute(rd, bgp.EthernetSegmentIdentifier{}, 0, uint8(pf.Bits()), pf.Addr(), v4("0.0.0.0"), 100)
+				if err != nil {
+					w.out = append(w.out, "(evpn-error)")
+					return
+				}
+				var m *bgp.BGPMessage
+				if r.At(0).Atom == "w" {
+					mp, _ := bgp.NewPathAttributeMpUnreachNLRI(bgp.RF_EVPN, []bgp.PathNLRI{{NLRI: nl}})
+					m = bgp.NewBGPUpdateMessage(nil, []bgp.PathAttributeInterface{mp}, nil)
+				} else {
+					mp, _ := bgp.NewPathAttributeMpReachNLRI(bgp.RF_EVPN, []bgp.PathNLRI{{NLRI: nl}}, p.addr)
+					var ecs []bgp.ExtendedCommunityInterface
+					for _, t := range r.At(3).List {
+						if ec, err := bgp.ParseRouteTarget(t.Atom); err == nil {
+							ecs = append(ecs, ec)
+						}
+					}
+					attrs := []bgp.PathAttributeInterface{bgp.NewPathAttributeOrigin(0),
+						bgp.NewPathAttributeAsPath([]bgp.AsPathParamInterface{bgp.NewAs4PathParam(bgp.BGP_ASPATH_ATTR_TYPE_SEQ, []uint32{p.as})}), mp}
 					if len(ecs) > 0 {
 						attrs = append(attrs, bgp.NewPathAttributeExtendedCommunities(ecs))
 					}
